@@ -35,6 +35,15 @@ def base_strings(tier: str, seed: int) -> List[bytes]:
             return bytes([0xFF] * 5)
         return bytes(rnd.randrange(256) for _ in range(5))
 
+    # operand extremes: every opcode (bare and behind two prefixes) with operand bytes that form the largest / smallest
+    # addresses, displacements and immediates (top of the external space, its last bytes, the ignored upper bits set)
+    extremes = [bytes([0xFF] * 6), bytes([0xFE, 0xFF, 0x0F, 0xFF, 0xFF, 0xFF]), bytes([0xFF, 0xFF, 0x0F, 0x00, 0x00, 0x00]), bytes([0xFD, 0xFF, 0x0F, 0xFE, 0xFF, 0x0F]),
+                bytes(6), bytes([0x00, 0x00, 0x10, 0x00, 0x00, 0x10]), bytes([0xFF, 0xFF, 0xFF, 0x0F, 0xFF, 0xFF]), bytes([0x04, 0xFE, 0xFF, 0x0F, 0xFF, 0xFF]),
+                bytes([0x84, 0xFF, 0xFE, 0xFF, 0x0F, 0xFF]), bytes([0x00, 0xFE, 0xFF, 0x0F, 0x00, 0x00])]
+    for pre in (None, 0x32, 0x25):
+        for op in range(256):
+            for x in extremes:
+                out.append(((bytes([op]) if pre is None else bytes([pre, op])) + x)[:7])
     if tier == "quick":
         for op in range(256):
             for b2 in range(256):
